@@ -324,11 +324,25 @@ def probe_dimlink(it, pr, ctx, case, flags):
     # explicit ticks / labels replace the link
     d = holder.dimensions[0]
     if kind == "range":
-        d.ticks = [5.0, 6.0]
+        newticks, tcls = [5.0, 6.0], "other-values"
+        if pr["n"] % 2:
+            # "freezing" the link: the explicit ticks are exactly the values the link reports right now
+            newticks, tcls = [float(x) for x in d.ticks], "same-values-as-linked"
+            flags.add("dimlink:explicit-ticks-equal-to-linked-values")
+        d.ticks = list(newticks)
         d2 = holder.dimensions[0]
-        if d2.has_link or [float(x) for x in d2.ticks] != [5.0, 6.0]:
-            ctx.violation("C05/dimlink/range/explicit-ticks-do-not-replace-link", case,
-                          {"has_link": d2.has_link, "ticks": [float(x) for x in d2.ticks][:4]})
+        if d2.has_link or [float(x) for x in d2.ticks] != newticks:
+            ctx.violation("C05/dimlink/range/explicit-ticks-do-not-replace-link/" + tcls, case,
+                          {"has_link": d2.has_link, "ticks": [float(x) for x in d2.ticks][:4], "set": newticks[:4]})
+        if tcls == "same-values-as-linked":
+            # explicit ticks do not follow the array any more
+            cur = cur + 3.0
+            tgt[:] = cur
+            d3 = holder.dimensions[0]
+            got = [float(x) for x in d3.ticks]
+            if got != newticks or [float(x) for x in d.ticks] != newticks:
+                ctx.violation("C05/dimlink/range/explicit-ticks-still-follow-the-array", case,
+                              {"set": newticks[:4], "now": got[:4]})
         if tgt.shape != shape or not np.array_equal(np.asarray(tgt[:]), cur):
             ctx.violation("C05/dimlink/range/setting-ticks-changed-target", case, {})
         # and linking again replaces the ticks
@@ -372,6 +386,19 @@ def probe_append(it, pr, ctx, case, flags):
         return
     flags.add("append:" + scen)
     ch = it.handle(cand)
+    if pr.get("hvia"):
+        # the candidate's handle comes from a link (a link list, a role slot, a search), not from its owning container:
+        # it is the same entity, so acceptance must not depend on the path
+        alt = [(lab, g) for lab, g in paths_to(it, cand) if not lab.startswith("own:")]
+        if alt:
+            lab, g = alt[pr["hvia"] % len(alt)]
+            try:
+                ch = g()
+                flags.add("append:candidate-handle-through-" + lab.split(":")[0])
+                if expect == "accept":
+                    flags.add("nontrivial")
+            except Exception:  # noqa  (an unreachable path is the alias probe's business)
+                ch = it.handle(cand)
     if pr.get("via") == "extend" and expect == "refuse":
         # extend([acceptable..., unacceptable]): the whole call is refused, nothing of it is linked
         goods = [g for g in it.alive(tkind, lambda e: e.block() is blk) if g.id not in before][:2]
@@ -642,6 +669,7 @@ def probe_strategy():
         return d
     append = st.fixed_dictionaries({"probe": st.just("append"), "k": st.sampled_from(sorted(LINK_ROLES)), "t": I,
                                     "role": st.integers(0, 9), "c": I, "via": st.sampled_from(["append", "append", "extend"]),
+                                    "hvia": st.sampled_from([0, 0, 1, 2, 3, 5, 8]),
                                     "scenario": st.sampled_from(["same-block", "nested-source", "wrong-kind",
                                                                  "other-block-different-name", "other-block-same-name",
                                                                  "other-block-same-name"])})
